@@ -52,8 +52,18 @@ def interesting_instant(rng):
 
 def gen_gmtime(rng, n):
     for _ in range(n):
-        yield {"op": "gmtime", "a": {"t": W(interesting_instant(rng)), "ns": rng.choice([0, 1, 999999999, 1000000000, 2147483647, rng.randint(0, 999999999)]),
+        t = interesting_instant(rng)
+        yield {"op": "gmtime", "a": {"t": W(t), "ns": rng.choice([0, 1, 999999999, 1000000000, 2147483647, rng.randint(0, 999999999)]),
                                     "via": rng.choice(["utc", "dt"])}}
+        if rng.random() < 0.08:
+            # the same instant given as a total count of nanoseconds (UtcDateTime / DateTime::from_total_nanoseconds*)
+            ns = rng.choice([0, 1, 999999999, rng.randint(0, 999999999)])
+            yield {"op": "fromnanos", "a": {"N": W(t * 10**9 + ns), "via": rng.choice(["utc", "local"]), "type": {"off": 0, "dst": 0, "des": []}}}
+    for edge in (MINT, MAXT):
+        for d in (-1, 0, 1):
+            for ns in (0, 1, 999999999):
+                for via in ("utc", "local"):
+                    yield {"op": "fromnanos", "a": {"N": W((edge + d) * 10**9 + ns), "via": via, "type": {"off": 0, "dst": 0, "des": []}}}
 
 
 def rand_fields(rng, valid_bias=0.7):
@@ -84,6 +94,12 @@ def gen_timegm(rng, n):
         f = rand_fields(rng)
         f["via"] = rng.choice(["utc", "dt"])
         yield {"op": "timegm", "a": f}
+    # second 60 anywhere on the last / first days of the extreme years: only i32::MAX-12-31T23:59:60 is outside the range
+    for y in (I32MAX, I32MAX - 1, I32MIN):
+        for _ in range(6):
+            for via in ("utc", "dt"):
+                yield {"op": "timegm", "a": {"y": y, "mo": rng.choice([12, 12, 1]), "d": rng.choice([31, 31, 1]), "h": rng.randint(0, 23), "mi": rng.randint(0, 59),
+                                             "s": 60, "ns": rng.choice([0, 999999999]), "via": via}}
     # the documented corner: i32::MAX-12-31T23:59:60 and its neighbours
     for y in (I32MAX, I32MAX - 1, I32MIN):
         for s in (59, 60):
@@ -100,6 +116,14 @@ def gen_utccmp(rng, n):
             b = dict(a)
             key = rng.choice(["y", "mo", "d", "h", "mi", "s", "ns"])
             b[key] = rand_fields(rng, 1.0)[key]
+        elif k < 0.75:
+            # same year, different date or time, nanoseconds ordered the other way round
+            b = dict(a)
+            key = rng.choice(["mo", "d", "h", "mi", "s"])
+            b[key] = rand_fields(rng, 1.0)[key]
+            if b["d"] > 28:
+                b["d"] = a["d"] = 28
+            a["ns"], b["ns"] = rng.choice([(5, 3), (3, 5), (999999999, 0), (0, 999999999)])
         else:
             b = rand_fields(rng, 1.0)
         yield {"op": "utccmp", "a": {"a": a, "b": b}}
@@ -260,6 +284,8 @@ def gen_zone_session(rng, z, nprobe=40, do_find=True, do_findn=False, lookups=Tr
             yield {"op": "lookup", "a": {"u": W(u), "via": rng.choice(["ref", "owned"])}}
             if rng.random() < 0.3:
                 yield {"op": "localtime", "a": {"u": W(u), "ns": rng.choice([0, 999999999])}}
+            if rng.random() < 0.15 and abs(u) < 2**62:
+                yield {"op": "fromnanos", "a": {"N": W(u * 10**9 + rng.choice([0, 1, 500000000, 999999999])), "via": "zone", "type": {"off": 0, "dst": 0, "des": []}}}
         if do_find and MINT + 2**32 < u < MAXT - 2**32:
             # local times within one offset of the point: the four boundary seconds of a gap/fold at u for each offset pair
             o = rng.choice(offs)
@@ -325,6 +351,19 @@ def gen_c03_extreme(rng, n):
 
 
 # ---- C12 ----
+def gen_leap_only_zones(rng, n):
+    """no transition table, a leap table (and sometimes a fixed rule): the instant is never converted, so every i64 instant
+    must give the zone's type - the top of the range included"""
+    for _ in range(n):
+        ty = [rand_type(rng)]
+        lp = rand_leaps(rng, rng.randint(1, 27))
+        rule = {"k": "none"} if rng.random() < 0.6 else {"k": "fixed", "t": dict(ty[0])}
+        yield zone_event({"tr": [], "ty": ty, "lp": [list(x) for x in lp], "rule": rule})
+        c = abs(lp[-1][1]) + 2
+        for u in [I64MAX - d for d in range(0, c)] + [I64MIN + d for d in range(0, c)] + [0, -1, lp[0][0], lp[-1][0]]:
+            yield {"op": "lookup", "a": {"u": W(u), "via": rng.choice(["ref", "owned"])}}
+
+
 def gen_c12(rng, nzones):
     for i in range(nzones):
         k = rng.random()
@@ -343,6 +382,10 @@ def gen_c12(rng, nzones):
         rule = rng.choice([{"k": "none"}, {"k": "fixed", "t": dict(ty[tr[-1][1]])}])
         z = {"tr": tr, "ty": ty, "lp": lp, "rule": rule}
         yield from gen_zone_session(rng, z, nprobe=60, do_find=True)
+    # right/-style zones with a daylight-saving footer: the table is on the leap scale, the rule's instants are UTC
+    for i in range(max(8, nzones // 8)):
+        r = corpus_rule(i) if i % 2 == 0 else rand_rule(rng)
+        yield from gen_rule_zone_session(rng, r, with_table=True, do_find=True, do_findn=(i % 3 == 0), nprobe=40, leaps=True)
 
 
 # ---- C13 ----
@@ -523,7 +566,62 @@ def new_year_rule(rng):
     return {"k": "alt", "std": {"off": so, "dst": 0, "des": B("STD")}, "dst": {"off": do, "dst": 1, "des": B("DST")}, "sd": a, "st": tm(), "ed": b, "et": tm()}
 
 
+def gen_leap_in_gap_zones(rng, n, findn=False):
+    """a forward transition followed, less than one gap width later, by a leap second: the gap's transition instant must be
+    converted with the correction in force AT THE TRANSITION, whatever the searched time"""
+    for _ in range(n):
+        gap = rng.choice([3600, 1800, 7200, 86400])
+        c0 = rng.choice([0, 1, 5, 26, -1])
+        T = rng.randint(10**8, 2 * 10**9)
+        k = rng.randint(1, gap - 1)
+        lp = []
+        if c0:
+            step = 1 if c0 > 0 else -1
+            r0 = T - abs(c0) * 10**7 - 10**6
+            lp = [[r0 + i * 10**7, step * (i + 1)] for i in range(abs(c0))]
+        lp.append([T + c0 + k, c0 + rng.choice([1, 1, -1])])
+        base = rng.choice([0, -18000, 3600])
+        ty = [{"off": base, "dst": 0, "des": B("STD")}, {"off": base + gap, "dst": 1, "des": B("DST")}]
+        rule = {"k": "fixed", "t": dict(ty[1])} if rng.random() < 0.6 else {"k": "none"}
+        tr = [[T + c0, 1]] + ([[T + c0 + 10**7, 1]] if rule["k"] == "none" else [])
+        yield zone_event({"tr": tr, "ty": ty, "lp": lp, "rule": rule})
+        for L in sorted({T + base + d for d in (0, 1, k - 1, k, k + 1, k + 2, gap // 2, gap - 1, gap, -1)}):
+            f = fields_of_local(L, 0)
+            if findn:
+                fn = dict(f); fn["n"] = rng.randint(1, 3)
+                yield {"op": "findn", "a": fn}
+            else:
+                yield {"op": "find", "a": f}
+        for d in (-1, 0, 1, k - 1, k, k + 1):
+            yield {"op": "lookup", "a": {"u": W(T + d), "via": "ref"}}
+
+
+def gen_rule_not_type0_zones(rng, n, findn=False):
+    """no transition table, several local time types, and a trailing rule (fixed or daylight saving) whose types are NOT the
+    zone's first type (a TZif file whose type 0 is LMT and whose footer is CET-1): every answer comes from the rule"""
+    for i in range(n):
+        lmt = {"off": rng.choice([561, -17762, 0, 3600]), "dst": 0, "des": B("LMT")}
+        if i % 2 == 0:
+            t = {"off": rng.choice([3600, -18000, 34200]), "dst": 0, "des": B("CET")}
+            z = {"tr": [], "ty": [lmt, t], "lp": [], "rule": {"k": "fixed", "t": dict(t)}}
+        else:
+            r = corpus_rule(i)
+            z = {"tr": [], "ty": [lmt, dict(r["std"]), dict(r["dst"])], "lp": [], "rule": r}
+        yield zone_event(z)
+        for _ in range(6):
+            u = rng.randint(-2 * 10**9, 4 * 10**9)
+            yield {"op": "lookup", "a": {"u": W(u), "via": rng.choice(["ref", "owned"])}}
+            f = fields_of_local(u + rng.choice([z["ty"][1]["off"], lmt["off"]]), 0)
+            if findn:
+                f["n"] = rng.randint(0, 3)
+                yield {"op": "findn", "a": f}
+            else:
+                yield {"op": "find", "a": f}
+
+
 def gen_find_zones(rng, nzones, findn=False):
+    yield from gen_leap_in_gap_zones(rng, max(6, nzones // 15), findn=findn)
+    yield from gen_rule_not_type0_zones(rng, max(6, nzones // 15), findn=findn)
     for i in range(max(6, nzones // 10)):
         yield from gen_rule_zone_session(rng, new_year_rule(rng), with_table=(i % 3 == 2), do_find=True, do_findn=findn, nprobe=20)
     for _ in range(max(3, nzones // 25)):
@@ -646,6 +744,23 @@ def gen_c14(rng, n):
             tz_times = [tr[0] for tr in z["tr"]] or [t]
             tt = rng.choice(tz_times) + rng.choice([-1, 0, 1, 1000, -1000])
             yield {"op": "project", "a": {"t": W(max(I64MIN, min(I64MAX, tt))), "ns": ns, "type": src, "via": "dt"}}
+        elif k < 0.69:
+            # one operand given by its fields with second 60 (DateTime::new), the other the same or a neighbouring instant
+            # given directly: equality and order are by (instant, nanoseconds) only
+            L = max(MINT + 10**6, min(MAXT - 10**6, t))
+            L -= L % 60
+            f = fields_of_local(L - 1, ns)
+            f["s"] = 60                                     # = L, second 0 of the next minute
+            off = rng.choice([0, 3600, -18000, ty["off"] % 86400])
+            fty = {"off": off, "dst": 0, "des": B("ABC")}
+            a = dict(f, type=fty)
+            t2 = L - off + rng.choice([0, 0, 0, 1, -1])
+            b = {"t": W(t2), "ns": rng.choice([ns, ns, 0, 999999999]), "type": rand_type(rng, "small")}
+            yield {"op": "dtcmp", "a": {"a": a, "b": b} if rng.random() < 0.5 else {"a": b, "b": a}}
+        elif k < 0.72:
+            # exact (also negative) multiples of 10^9 and their neighbours as total counts, through a local type and through the zone
+            N = rng.choice([-1, -2, -60, -86400, -2**31, -9223372036, 1, 0, rng.randint(-9 * 10**9, 9 * 10**9)]) * 10**9 + rng.choice([0, 0, 0, 1, -1, 999999999])
+            yield {"op": "fromnanos", "a": {"N": W(N), "via": rng.choice(["local", "zone", "utc"]), "type": ty}}
         elif k < 0.85:
             t2 = t + rng.choice([0, 0, 1, -1, rng.randint(-5, 5)])
             ns2 = rng.choice([ns, ns, 0, 999999999])
@@ -788,7 +903,7 @@ def rule_probes(rng, r, nyears=3):
     return [p for p in pts if MINT - 10 <= p <= MAXT + 10]
 
 
-def gen_rule_zone_session(rng, r, with_table=False, do_find=True, do_findn=False, nprobe=40):
+def gen_rule_zone_session(rng, r, with_table=False, do_find=True, do_findn=False, nprobe=40, leaps=None):
     """A rule-only zone, or a table ending at a rule-generated transition (the table/rule junction)."""
     ty = [dict(r["std"]), dict(r["dst"])]
     tr = []
@@ -801,12 +916,25 @@ def gen_rule_zone_session(rng, r, with_table=False, do_find=True, do_findn=False
         # a few earlier transitions
         t0 = t - rng.randint(10**6, 10**8)
         tr = [[t0, rng.randrange(2)], [t, 1 if kind == "S" else 0]]
-    z = {"tr": tr, "ty": ty, "lp": [], "rule": r}
+    lp = []
+    if tr and (rng.random() < 0.3 if leaps is None else leaps) and tr[0][0] > 10**8:
+        # right/-style: leap records before the last transition; the table is on the leap scale, the rule on UTC
+        n = rng.randint(1, 27)
+        lp = [list(x) for x in rand_leaps(rng, n, start=rng.randint(0, 5 * 10**7)) if x[0] < tr[0][0] - 10**6]
+        if lp:
+            tr = [[tt + lp[-1][1], ix] for (tt, ix) in tr]
+    z = {"tr": tr, "ty": ty, "lp": lp, "rule": r}
     yield zone_event(z)
     pts = rule_probes(rng, r)
     if tr:
         pts += [tr[-1][0] + dl for dl in (-1, 0, 1, 3600, -3600)]
     rng.shuffle(pts)
+    if lp:
+        # within the accumulated correction of each rule instant after the table (a rule evaluated on the wrong scale shows there)
+        c = abs(lp[-1][1]) + 1
+        yl = civil_year_of(tr[-1][0]) + 1
+        extra = [b + d for b in (rule_S(r, yl), rule_E(r, yl), rule_S(r, yl + 1)) for d in range(-c - 1, c + 2)]
+        pts = extra[:40] + pts
     offs = [r["std"]["off"], r["dst"]["off"]]
 
     def search(L):
@@ -854,6 +982,61 @@ def gen_rule_zone_session(rng, r, with_table=False, do_find=True, do_findn=False
         ny = days_from_civil(y, 1, 1) * DAY
         for L in (ny - 3600, ny - 1800, ny - 1, ny, ny + 900, ny + 3600):
             yield search(L)
+
+
+def civil_year_of(t):
+    y, _, _ = civil_from_days(t // DAY)
+    return y
+
+
+def hhmmss(v, allow_minus_zero=True):
+    sign = "-" if v < 0 else ""
+    a = abs(v)
+    h, m, sec = a // 3600, (a % 3600) // 60, a % 60
+    if sec:
+        return f"{sign}{h}:{m:02d}:{sec:02d}"
+    if m:
+        return f"{sign}{h}:{m:02d}"
+    return f"{sign}{h}"
+
+
+def rule_to_posix(r):
+    """the POSIX TZ spelling of a rule (None if it has none: offsets beyond 24:59:59, times beyond 167 h, unnamed types)"""
+    def name(t):
+        d = bytes(t["des"]).decode("ascii", "replace")
+        if len(d) < 3:
+            return None
+        return d if d.isalpha() else "<" + d + ">"
+    def day(nd):
+        return f"J{nd[1]}" if nd[0] == "J" else (str(nd[1]) if nd[0] == "Z" else f"M{nd[1]}.{nd[2]}.{nd[3]}")
+    n1, n2 = name(r["std"]), name(r["dst"])
+    if n1 is None or n2 is None or abs(r["std"]["off"]) > 89999 or abs(r["dst"]["off"]) > 89999 or abs(r["st"]) > 167 * 3600 + 3599 or abs(r["et"]) > 167 * 3600 + 3599:
+        return None
+    return f"{n1}{hhmmss(-r['std']['off'])}{n2}{hhmmss(-r['dst']['off'])},{day(r['sd'])}/{hhmmss(r['st'])},{day(r['ed'])}/{hhmmss(r['et'])}"
+
+
+def gen_rule_strings(rng, rules):
+    """the same rules written as POSIX TZ strings (version-3 footer; the plain paths too when the times allow): the string path
+    and the constructor must decide and mean the same"""
+    for r in rules:
+        s = rule_to_posix(r)
+        if s is None:
+            continue
+        vias = ["v3"]
+        if 0 <= r["st"] <= 24 * 3600 + 3599 and 0 <= r["et"] <= 24 * 3600 + 3599:
+            vias += ["v2", "settings"]
+        for via in vias:
+            yield {"op": "tzstring", "a": {"s": list(s.encode()), "via": via}}
+
+
+def small_time_rule(rng):
+    """a rule whose times and offsets are a few minutes or seconds either side of zero (-0:30, -0:00:01, 0:00:59 ...)"""
+    r = rand_rule(rng, near=rng.random() < 0.5)
+    small = [-1800, -1, -59, -60, -61, -3599, 1, 59, 1800, 3599, -3601, -86399]
+    r["st"] = rng.choice(small); r["et"] = rng.choice(small + [0, 7200, -86400])
+    if rng.random() < 0.5:
+        r["std"]["off"] = rng.choice(small); r["dst"]["off"] = r["std"]["off"] + rng.choice([3600, 1800, -3600])
+    return r
 
 
 def year_crossing_rule(rng):
@@ -919,6 +1102,15 @@ def gen_c04(rng, nrules, do_find=False):
     for i in range(nrules):
         r = corpus_rule(i) if i % 4 == 0 else rand_rule(rng)
         yield from gen_rule_zone_session(rng, r, with_table=False, do_find=do_find)
+    for i in range(max(12, nrules // 6)):
+        # a table (often with leap seconds: right/-style) that hands over to the rule
+        r = corpus_rule(i) if i % 3 == 0 else rand_rule(rng)
+        yield from gen_rule_zone_session(rng, r, with_table=True, do_find=do_find, nprobe=50)
+    rules = [small_time_rule(rng) for _ in range(max(40, nrules // 4))] + [rand_rule(rng) for _ in range(max(40, nrules // 4))] + [corpus_rule(i) for i in range(11)]
+    yield from gen_rule_strings(rng, rules)
+    for r in rules[: max(10, nrules // 20)]:
+        if rule_to_posix(r) is not None:
+            yield from gen_rule_zone_session(rng, r, with_table=False, do_find=do_find, nprobe=12)
 
 
 def gen_c11(rng, n):
@@ -931,6 +1123,17 @@ def gen_c11(rng, n):
             r[rng.choice(["st", "et"])] = rng.choice([604800, -604800, 604801, I32MAX, I32MIN])
         a = {kk: r[kk] for kk in ("std", "dst", "sd", "st", "ed", "et")}
         yield {"op": "rule", "a": a}
+    # near-coincident days with times a few seconds either side of the breakpoints, through the constructor and as strings
+    rules = []
+    for _ in range(max(60, n // 30)):
+        r = small_time_rule(rng)
+        r["ed"] = near_ruleday(rng, r["sd"])
+        if rng.random() < 0.5:
+            r["std"]["off"] = r["dst"]["off"] = 0
+            r["et"] = rng.choice([-86400, 0, 86400, -172800])
+        rules.append(r)
+        yield {"op": "rule", "a": {kk: r[kk] for kk in ("std", "dst", "sd", "st", "ed", "et")}}
+    yield from gen_rule_strings(rng, rules)
     for _ in range(n // 10):
         k = rng.choice(["J", "Z", "M"])
         if k == "M":
@@ -984,8 +1187,8 @@ def gen_render(rng, n):
 
 # ---- C09 ----
 TZ_NAMES = ["EST", "EDT", "CET", "CEST", "<-03>", "<+0530>", "<+14>", "ABCDEFG", "NZST", "AB", "ABCDEFGH", "<A B>", "<AB", "A1B", "<A1B>", "", "<>", "<->"]
-TZ_OFFS = ["5", "05", "+5", "-5", "5:30", "-0:30", "5:30:15", "24", "25", "24:59:59", "0", "-10", "+0", "-0", "5:60", "5:", "", "00005", "-24:59:59", "12:34:56", "1:2:3", "99999999999"]
-TZ_DAYS = ["M3.0.1", "M3.2.1", "M3.2.0", "M11.1.0", "M10.5.0", "M1.1.0", "M12.5.6", "J60", "J300", "J1", "J365", "59", "300", "0", "365", "J0", "J366", "366", "M13.1.0", "M3.6.0", "M3.2.7", "M3.2", "M0.1.0", "M2.5.3", ""]
+TZ_OFFS = ["5", "05", "+5", "-5", "5:30", "-0:30", "5:30:15", "24", "25", "24:59:59", "0", "-10", "+0", "-0", "5:60", "5:", "", "00005", "-24:59:59", "12:34:56", "1:2:3", "99999999999", "4294967296", "4294967301", "9999999999", "0:4294967296", "1:0:4294967297", "256", "65541"]
+TZ_DAYS = ["M259.2.0", "M3.258.0", "M3.2.256", "M3.2.262", "J65537", "65536", "J4294967297", "M3.0.1", "M3.2.1", "M3.2.0", "M11.1.0", "M10.5.0", "M1.1.0", "M12.5.6", "J60", "J300", "J1", "J365", "59", "300", "0", "365", "J0", "J366", "366", "M13.1.0", "M3.6.0", "M3.2.7", "M3.2", "M0.1.0", "M2.5.3", ""]
 TZ_TIMES = ["", "/2", "/0", "/24", "/25", "/-1", "/+2", "/167", "/168", "/2:30", "/-0:30", "/24:59:59", "/", "/2:60", "/-167:59:59", "/02:00:00", "/26", "/3:00:00"]
 
 
@@ -1022,6 +1225,10 @@ def gen_tzstrings(rng, n):
             s = bytes(s)
         # both public paths trim ASCII whitespace; keep interior whitespace, drop surrounding whitespace cases (C20 owns them)
         s = s.strip(b" \t\n\x0c\r")
+        if rng.random() < 0.04:
+            # ... but white space that is NOT ASCII white space is part of the text on every path: not a sentence
+            ws = rng.choice(["\x0b", "\u0085", "\u00a0", "\u2003", "\u2028", "\u3000", "\x1c"]).encode()
+            s = (ws + s) if rng.random() < 0.5 else (s + ws)
         vias = ["v2", "v3"]
         try:
             s.decode("utf-8")
@@ -1228,10 +1435,12 @@ def tiny_tzif(rng):
 
 def gen_resolve(rng, n):
     dirpool = ["/usr/share/zoneinfo", "/share/zoneinfo", "/etc/zoneinfo", "/z", "rel", "/a/b", ""]
-    names = ["Europe/Paris", "UTC0", "EST5EDT,M3.2.0,M11.1.0", "localtime", "A", "/abs/zone", "x/../y", "UTC", "Bad Name", "EST5", "<-03>3", "posix/UTC"]
+    names = ["Europe/Paris", "UTC0", "EST5EDT,M3.2.0,M11.1.0", "localtime", "localtime", "A", "/abs/zone", "x/../y", "UTC", "Bad Name", "EST5", "<-03>3", "posix/UTC"]
+    # names around the usual file-name and path length limits (a TZ value has no such limit of its own)
+    longs = ["/".join(["aa"] * k) for k in (85, 86, 100)] + ["b" * k for k in (255, 256, 257, 300)] + ["d/" + "c" * 254, "Zone/" + "e" * 4096]
     for _ in range(n):
         dirs = [rng.choice(dirpool) for _ in range(rng.randint(0, 4))]
-        base = rng.choice(names)
+        base = rng.choice(names) if rng.random() < 0.93 else rng.choice(longs)
         k = rng.random()
         s = base
         if k < 0.2:
@@ -1261,6 +1470,8 @@ def gen_resolve(rng, n):
             vfs.append([B(p), content])
         rng.shuffle(vfs)
         a = {"s": B(s), "dirs": [B(d) for d in dirs], "vfs": vfs, "via": "posix"}
+        if s == "localtime" and rng.random() < 0.5:
+            a["via"] = "local"                                  # TimeZoneSettings::parse_local = the value "localtime"
         if rng.random() < 0.3:
             # earlier resolutions on the same settings value: other names, found in various directories (or nowhere)
             pre = []
@@ -1330,7 +1541,7 @@ def gen_hostile_files(rng, files, per_file):
 
 def gen_hostile_strings(rng, n):
     alphabet = list(range(256))
-    pieces = [b"<", b">", b",", b"/", b":", b"-", b"+", b".", b"M", b"J", b"0", b"9", b"99999999999999999999", b"\x00", b"\xff\xfe", b"\xc3\xa9", b" ", b"\n", b"EST", b"<" * 20, b"1" * 300]
+    pieces = [b"<", b">", b",", b"/", b":", b"-", b"+", b".", b"M", b"J", b"0", b"9", b"99999999999999999999", b"4294967296", b"9999999999", b"4294967301", b"2147483648", b"65536", b"256", b"\x00", b"\xff\xfe", b"\xc3\xa9", b" ", b"\n", b"EST", b"<" * 20, b"1" * 300]
     for _ in range(n):
         k = rng.random()
         if k < 0.4:
